@@ -70,11 +70,25 @@ pub fn msan_safe_code_artefact(stderr: &str) -> Option<String> {
     Some(format!("(use in {} and stack origin in {}: files without any unsafe code)", uf.trim_start_matches("/repo/"), of.trim_start_matches("/repo/")))
 }
 
+/// Hang accounting across shards: a tree on which calls block forever (C08/C20 territory) would make every case wait
+/// for its deadline; after `MAX_HANGS` hangs the remaining cases are not run (reported as a cap), the hangs found so
+/// far are still violations.
+static HANGS: std::sync::atomic::AtomicUsize = std::sync::atomic::AtomicUsize::new(0);
+static STOP: std::sync::atomic::AtomicBool = std::sync::atomic::AtomicBool::new(false);
+const MAX_HANGS: usize = 48;
+
+pub fn stopped_early() -> Option<usize> {
+    STOP.load(std::sync::atomic::Ordering::SeqCst).then(|| HANGS.load(std::sync::atomic::Ordering::SeqCst))
+}
+
 fn run_shard(exe: &str, id: &str, shard: &str, n: usize, deadline: Duration) -> Vec<(usize, String)> {
     let mut outcomes = vec![];
     let mut start = 0usize;
     let errfile = format!("{shard}.stderr");
     while start < n {
+        if STOP.load(std::sync::atomic::Ordering::SeqCst) {
+            break;
+        }
         let ef = std::fs::File::create(&errfile).expect("stderr file");
         let mut child = Command::new(exe).args([id, "--worker", shard, &start.to_string()]).stdout(Stdio::piped()).stderr(Stdio::from(ef)).spawn().expect("spawn worker");
         let stdout = child.stdout.take().unwrap();
@@ -112,13 +126,21 @@ fn run_shard(exe: &str, id: &str, shard: &str, n: usize, deadline: Duration) -> 
                 }
             };
             match rx.recv_timeout(Duration::from_millis(250)) {
-                Ok(line) => handle(line, &mut in_flight, &mut next, &mut outcomes),
+                Ok(line) => {
+                    handle(line, &mut in_flight, &mut next, &mut outcomes);
+                    if in_flight.is_none() && STOP.load(std::sync::atomic::Ordering::SeqCst) {
+                        break;
+                    }
+                }
                 Err(mpsc::RecvTimeoutError::Timeout) => {
                     if let Some((i, t0)) = in_flight {
                         if t0.elapsed() > deadline {
                             let _ = child.kill();
                             let _ = child.wait();
                             outcomes.push((i, format!("hang(>{}s)", deadline.as_secs())));
+                            if HANGS.fetch_add(1, std::sync::atomic::Ordering::SeqCst) + 1 >= MAX_HANGS {
+                                STOP.store(true, std::sync::atomic::Ordering::SeqCst);
+                            }
                             next = i + 1;
                             break;
                         }
